@@ -19,5 +19,5 @@ CONSTANTS
 INIT Init
 NEXT Next
 VIEW View
-INVARIANTS TypeOK Idempotent FmtKeepsTokens EmitFmt
+INVARIANTS TypeOK Idempotent FmtKeepsTokens FmtKeepsMust EmitFmt
 CHECK_DEADLOCK FALSE
